@@ -224,9 +224,9 @@ type injector func(c *gen.Ctx, features map[string]string, done []Step, last boo
 // runInterleaved executes the history, calling inject at the checkpoints (dates of earlier
 // writes are known then), and returns the complete case.
 func runInterleaved(c *gen.Ctx, workload string, features map[string]string, hist []Step, checkpoints map[int]bool, inject injector) (In, Out) {
-	in := In{Workload: workload, Prop: os.Getenv("VERIF_READS_PROP"), Features: features}
+	in := In{Workload: workload, Prop: os.Getenv("VERIF_READS_PROP"), Features: features, Sibling: c.R.Intn(2) == 0}
 	out := Out{Results: []string{}, Answers: []any{}}
-	r, err := newRunner(features)
+	r, err := newRunnerFor(&in)
 	if err != nil {
 		out.Err = err.Error()
 		return in, out
